@@ -267,8 +267,14 @@ def binary_session(app, cid, steps, selfplay=None, quit_during_search=False, wat
         stop_sent = stop_after is None
         logged = skipped = 0
         last_msg = time.time()
+        stop_at = None
         while True:
             now = time.time()
+            # a search that keeps reporting long after it should have ended never answers (the process is ended with the session)
+            if (stop_at is not None and now - stop_at >= watchdog) or (stop_at is None and now - t0 >= 4 * watchdog):
+                ev.append({"c": cid, "ev": "timeout", "why": "no bestmove: the search keeps running long after it should have ended"})
+                dead = True
+                return None
             if during and now - t0 >= during.get("after_ms", 50) / 1000.0:
                 ev.append({"c": cid, "ev": "in", "cmd": "position", "fen": during["fen"], "moves": during.get("moves", [])})
                 pr.send("position fen %s%s" % (during["fen"], (" moves " + " ".join(during["moves"])) if during.get("moves") else ""))
@@ -281,6 +287,7 @@ def binary_session(app, cid, steps, selfplay=None, quit_during_search=False, wat
                 ev.append({"c": cid, "ev": "in", "cmd": "stop"})
                 pr.send("stop")
                 stop_sent = True
+                stop_at = time.time()
             if not stop_sent:
                 nxt = min(stop_after, hit_after if not hit_sent else stop_after, during.get("after_ms", 50) if during else stop_after)
                 line = pr.get(max(nxt / 1000.0 - (now - t0), 0.0002))
@@ -313,6 +320,7 @@ def binary_session(app, cid, steps, selfplay=None, quit_during_search=False, wat
                     ev.append({"c": cid, "ev": "in", "cmd": "stop"})
                     pr.send("stop")
                     stop_sent = True
+                    stop_at = time.time()
             else:
                 skipped += 1
 
